@@ -34,6 +34,7 @@ const modPrefix = "github.com/EdgeCast/vflow/zzverif/"
 var (
 	out        = flag.String("out", "", "output directory")
 	renameMain = flag.String("rename-main", "", "rename func main to this (package main)")
+	seamsOnly  = flag.Bool("seams-only", false, "rewrite the environment seams only (clock, sockets, signals, queue capacities); leave goroutines, channels and sync alone")
 	tmpN       int
 	usedSched  bool
 	usedVenv   bool
@@ -387,11 +388,12 @@ func main() {
 				name = im.Name.Name
 			}
 			imported[name] = p
-			switch p {
-			case "sync":
+			switch {
+			case *seamsOnly:
+			case p == "sync":
 				im.Path.Value = strconv.Quote(modPrefix + "vsync")
 				im.Name = ast.NewIdent("sync")
-			case "sync/atomic":
+			case p == "sync/atomic":
 				im.Path.Value = strconv.Quote(modPrefix + "vatomic")
 				im.Name = ast.NewIdent("atomic")
 			}
@@ -428,10 +430,14 @@ func main() {
 				if x.Name.Name == "main" && x.Recv == nil && *renameMain != "" && f.Name.Name == "main" {
 					x.Name.Name = *renameMain
 				}
-				r.block(x.Body)
+				if !*seamsOnly {
+					r.block(x.Body)
+				}
 			case *ast.GenDecl:
 				x.Doc = nil
-				r.expr(x)
+				if !*seamsOnly {
+					r.expr(x)
+				}
 			}
 		}
 		// drop imports that lost their last use, add the shim imports
